@@ -267,7 +267,7 @@ int main(int argc, char **argv) {
             }
         }
         else if (!strcmp(cmd, "FORCE")) { P->setstate(ST, atol(a1)); }
-        else if (!strcmp(cmd, "SET")) { if (P->set(ST, a1, atoll(a2))) fprintf(stderr, "SET: no such output %s\n", a1); }
+        else if (!strcmp(cmd, "SET")) { if (P->set(ST, a1, a2[0] == '-' ? strtoll(a2, NULL, 10) : (long long)strtoull(a2, NULL, 10))) fprintf(stderr, "SET: no such output %s\n", a1); }
         else if (!strcmp(cmd, "SETSTR")) { int n = unhex(a2, bytes); if (P->setstr(ST, a1, bytes, n)) fprintf(stderr, "SETSTR: no such output %s\n", a1); }
         else if (!strcmp(cmd, "SWEEP")) {
             /* from the current state: for every byte value, one forced step on a deep copy: feed code, end() code after it, pointer advance.
